@@ -6,8 +6,9 @@
 
       C11_safe : ∀ f dev bytes st, safe (decode f dev bytes st)        (safe = neither `ub _ _` nor `hang _`)
 
-  is still FALSE for the current code at one site (BMP palette indices beyond the declared entries are silently read as
-  black instead of being reported). Below: machine-checked witnesses
+  is now PROVEN for PNM and TARGA (`C11_safe_pnm`, `C11_safe_targa`: every device, byte string, entry point, setting) and
+  proven for BMP up to one non-memory-safety residual (`C11_memsafe_bmp`; BMP palette indices beyond the declared entries
+  are silently read as black instead of being reported: `C11_safe_bmp_false`). Below: machine-checked witnesses
   (`*_witness`, `decide`, each also replayed on the real readers under ASan/UBSan by the harness:
   checks/C11_witnesses.json), the negation of the full statement per format, regression theorems for the defects
   fixed in /repo during this work (their former witnesses now decode to an exception or to a correct image), and what
@@ -60,8 +61,8 @@ theorem C11_safe_bmp_false : ¬ ∀ (dev : Dev) (bytes : List UInt8) (st : Setti
   revert this
   decide +kernel
 
--- OPEN (not proven, no counterexample known since /repo 84ae407 / 84b4471):
---   ∀ dev bytes st, safe (decode .pnm dev bytes st)   and   ∀ dev bytes st, safe (decode .tga dev bytes st)
+-- (for PNM and TARGA the full statement is now PROVEN: `C11_safe_pnm`, `C11_safe_targa` below; for BMP everything but the
+--  reporting of an inconsistent palette: `C11_memsafe_bmp`)
 
 /-! ## defects fixed in /repo stay fixed: the former witnesses now give an exception or a correct image -/
 
@@ -377,13 +378,11 @@ example : safe (decode .tga .sstream [0, 0, 10] { entry := .view, dst := .rgba8,
   C11_safe_targa _ _ _ (by intro h; cases h)
 
 /-
-  -- OPEN (not proven): C11_safe_partial : WF f bytes st → safe (decode f dev bytes st)
-  --   for the pixel-reading entry points, with WF the decidable conjunction "declared sizes ≤ data present, palette indices
-  --   < declared entries, width * bytes per pixel fits int" and C11_wf_encode : WF (encode img). The correspondence run
-  --   carries this clause: on every generated input the real reader and the model agree, and every input on which the
-  --   model reports `ub`/`hang` falls under one of the witnessed sites above (known_findings.json).
-  -- OPEN (not proven): C11_terminates for whole `decode` (composition of the loop bounds above through every reader
-  --   function); proven for the loops themselves and, through C11_info_safe, for the read_image_info entry.
+  -- OPEN (not proven): for ALL image sizes, the bytes GIL's writers produce decode `ok` in these models (C11_wf_encode).
+  --   Instances are checked by `decide` (C11_valid_*_ok and the witness files); the correspondence run reads files written
+  --   by the model-independent Python encoders and (for PNG/JPEG/TIFF) by GIL's own writers on every run.
+  -- NOT COVERED by the statements above: read_and_convert_image into destination types other than rgb8 / rgba8 (PNM: rgb8)
+  --   -- the model contains no other colour conversion (`ConvOk`); dynamic-image readers; read_and_convert_view.
 -/
 
 end GilVerif.Props.C11
